@@ -305,6 +305,7 @@ World::World(Scenario const& s) : scn(s)
 			cfg->dns[d[1]] = e;
 		}
 		else if (d[0] == "node") node_decls.push_back(d);
+		else if (d[0] == "config" && d.size() >= 2 && d[1] == "default") dcfg.reset(new sim::default_config);
 		else if (d[0] == "pcap")
 		{
 			pcap = true;
@@ -312,7 +313,8 @@ World::World(Scenario const& s) : scn(s)
 			pcap_path = pcap_file;
 		}
 	}
-	sim.reset(new simulation(*cfg));
+	if (dcfg) sim.reset(new simulation(*dcfg));
+	else sim.reset(new simulation(*cfg));
 	if (pcap) sim->log_pcap(pcap_file.c_str());
 	for (auto const& d : node_decls)
 	{
@@ -535,6 +537,7 @@ World::~World()
 	nodes.clear();
 	sim.reset();
 	cfg.reset();
+	dcfg.reset();
 	g_muted = false;
 	if (!pcap_path.empty())
 	{
